@@ -490,15 +490,20 @@ def stage_fixtures(ctx, pq, w):
         leaves = {}
         for rec in res["ok"]:
             pt = rec["path_types"]
-            if rec["skipped"] or len(pt) != 3 or pt[1] != 2 or pt[0] == 2 or pt[2] == 2 or rec["max_rep"] != 1:
-                ctx.count("fixture.leaf_skipped", "%s:%s (%s)" % (fn, ".".join(rec["path"]), rec["skipped"] or "not a top-level three-level LIST/MAP leaf"))
+            in_struct = len(pt) > 3 and all(t != 2 for t in pt[:-3])       # LIST/MAP group below struct groups
+            if rec["skipped"] or len(pt) < 3 or pt[-2] != 2 or pt[-3] == 2 or pt[-1] == 2 or rec["max_rep"] != 1 \
+                    or (len(pt) > 3 and not in_struct):
+                ctx.count("fixture.leaf_skipped", "%s:%s (%s)" % (fn, ".".join(rec["path"]), rec["skipped"] or "not a one-level LIST/MAP leaf (top level or below structs)"))
                 continue
-            ro, eo = pt[0] == 1, pt[2] == 1
+            ro, eo = pt[-3] == 1, pt[-1] == 1
             vt = VTable()
             mp, ents, vals = [], [], []
             for pg in rec["pages"]:
                 rep = pg["rep"]
                 de = pg["def"] if pg["def"] is not None else [rec["max_def"]] * len(rep)
+                if in_struct:
+                    nl = pq.call("nested_levels", pt, de, rec["max_def"])      # model of core._nested_levels
+                    ro, de = bool(int(nl[0])), [int(x) for x in nl[1]]
                 mp.append(m_page(rep, de, pg["vals"], vt))
                 ents += [[r, d] for r, d in zip(rep, de)]
                 vals += [vt.idx(v) for v in pg["vals"]]
